@@ -25,6 +25,11 @@ type chk struct {
 // key is the stable identifier of a violation class: endpoint, kind of disagreement, and whether the
 // instance lives at negative block coordinates (a separate family of defects).
 func (k *chk) key(endpoint, class string) string {
+	if k.in.neg() && strings.HasPrefix(endpoint, "sparsevol-bounded") {
+		// one root cause (voxel bounds -> block bounds by truncating division, dvid.OptionalBounds.Divide) shows as
+		// 404s, missing voxels, foreign blocks or negative run lengths depending on the bounds drawn
+		return "sparsevol-bounded|negcoords"
+	}
 	s := endpoint + "|" + class
 	if k.in.neg() {
 		s += "|negcoords"
